@@ -96,6 +96,16 @@ def generate(g, tier):
         n2 = g.r.randint(0, 500)
         ls.append((f'DEFAULTDELAY {n2}', ('exact', f'DEFAULTDELAY {n2}')))
         cases.append(script_case(g, ls, False))
+    # every modifier (and Flipper one-character command) with every special single character: characters whose upper/lower form
+    # has another length or is another character class are where a validator written with .upper()/.lower() goes wrong
+    for m in SPEC['modifiers'].values():
+        if m['single_char']:
+            for name in m['names']:
+                for ch in WIDE_NONASCII:
+                    cases.append(script_case(g, [(f'{rand_case(g, name)} {ch}', ('exact', f'{name} {ch}'))], False))
+    for name in SPEC['flipper']['one_char_or_bare']:
+        for ch in WIDE_NONASCII:
+            cases.append(script_case(g, [(f'{name} {ch}', ('exact', f'{name} {ch}'))], False))
     if tier == 'thorough':
         # exhaustive: every (name, key) pair, every single printable ASCII char per modifier
         for m in SPEC['modifiers'].values():
